@@ -83,3 +83,43 @@ def run(ctx):
                   note='%s: pending action taken before the command is queued' % name)
     if hit == 0:
         raise AnalysisBroken('no function queues a memcpy command (cmd.memcpy.taskpool never stored)')
+    check_completed_parent_release(ctx)
+
+
+def check_completed_parent_release(ctx):
+    """When a task is linked behind a predecessor that has already completed, nobody else will release that dependency: the
+    inserting thread must call release_deps on the predecessor itself whenever the predecessor OR the new task is local
+    (local predecessor, remote task: the data has to be sent; remote predecessor, local task: the receive has to be posted).
+    The flush insertion and the generic insertion carry the same code; both must guard it with the disjunction."""
+    rd = ctx.rule('R17.d', 'completed predecessor: release_deps is called when the predecessor or the inserted task is local (flush insertion and generic insertion agree)', floor=2)
+    sites = (('parsec/interfaces/dtd/parsec_dtd_data_flush.c', 'parsec_insert_dtd_flush_task'), ('parsec/interfaces/dtd/insert_function.c', 'parsec_insert_dtd_task'))
+    for un, fname in sites:
+        f = ctx.extract(un).func(fname); ctx.functions_analysed.add(fname)
+        rel = [e for e in f.calls() if e.fn is None and e.callee is not None and e.callee.k == 'mem' and e.callee.n == 'release_deps' and len(e.args) >= 2 and 'parent' in e.args[1].s]
+        if len(rel) != 1:
+            raise AnalysisBroken('%s: expected one release_deps call on the predecessor (PARENT_OF), found %d' % (fname, len(rel)))
+        call = rel[0]
+        # innermost if statement enclosing the call whose condition tests task locality
+        best = None
+        for nid in f.stmts_of_kind('if'):
+            n_ = f.nodes[nid]
+            if 'then' not in n_ or call.nid not in set(f.ast_walk(n_['then'])):
+                continue
+            c = f.expr(n_['cond'])
+            tests = [x for x in c.walk() if x.k == 'call' and x.n == 'parsec_dtd_task_is_local']
+            if tests and (best is None or len(set(f.ast_walk(n_['then']))) < best[2]):
+                best = (nid, c, len(set(f.ast_walk(n_['then']))))
+        ok = best is not None
+        detail = 'no locality test around the call'
+        if ok:
+            c = best[1]
+            def disj(e):
+                return disj(e.ch[0]) + disj(e.ch[1]) if e.k == 'bin' and e.op == '||' else [e]
+            parts = disj(c)
+            args = sorted(x.ch[0].s for p_ in parts for x in [p_] if x.k == 'call' and x.n == 'parsec_dtd_task_is_local')
+            parent = [a for a in args if 'parent' in a]
+            ok = len(parts) == 2 and len(args) == 2 and len(parent) == 1
+            detail = c.s
+        rd.expect(ok, 'completed-parent:%s' % fname, call.loc,
+                  '%s must release the completed predecessor when the predecessor OR the inserted task is local; found the guard: %s' % (fname, detail),
+                  note='%s: release_deps(predecessor) under is_local(predecessor) || is_local(task)' % fname)
